@@ -3,12 +3,12 @@
 package apisim
 
 import (
-	"github.com/safing/portbase/formats/dsd"
-	"github.com/safing/portbase/database/record"
 	"encoding/base64"
 	"encoding/json"
 	"errors"
 	"fmt"
+	"github.com/safing/portbase/database/record"
+	"github.com/safing/portbase/formats/dsd"
 	"math/rand/v2"
 	"net/http"
 	"net/http/httptest"
@@ -40,33 +40,33 @@ var host = hosts[0]
 
 // KeySpec is one configured API key.
 type KeySpec struct {
-	Read    int `json:"read"`  // 0 omitted 1 anyone 2 user 3 admin 4 invalid
+	Read    int `json:"read"` // 0 omitted 1 anyone 2 user 3 admin 4 invalid
 	Write   int `json:"write"`
 	Expires int `json:"expires"` // 0 none, 1 in 10 minutes, 2 already past
 }
 
 // Step is one step of a history.
 type Step struct {
-	Kind    string    `json:"k"` // req advance setkeys dev clean
-	Method  int       `json:"method,omitempty"`
-	ReqR    int       `json:"req_r,omitempty"` // index into permPool
-	ReqW    int       `json:"req_w,omitempty"`
-	Cred    string    `json:"cred,omitempty"` // none bearer basic unknown short malformed cookie badcookie bridge
-	Key     int       `json:"key,omitempty"`
-	Short   int       `json:"short,omitempty"`
-	Cookie  int       `json:"cookie,omitempty"`
-	Auth    string    `json:"auth,omitempty"` // authenticator behaviour if consulted: token nil error denied
-	AuthR   int       `json:"auth_r,omitempty"`
-	AuthW   int       `json:"auth_w,omitempty"`
-	Origin  int       `json:"origin,omitempty"`
-	Host    int       `json:"host,omitempty"`
-	Panic   bool      `json:"panic,omitempty"`
-	PanicLate bool    `json:"panic_late,omitempty"` // the handler has already started its response when it panics
-	Via     int       `json:"via,omitempty"` // 0 a custom http.Handler; 1-5 a registered Endpoint with ActionFunc, DataFunc, StructFunc, RecordFunc, HandlerFunc
-	Secs    int       `json:"secs,omitempty"`
-	Keys    []KeySpec `json:"keys,omitempty"`
-	Dev     bool      `json:"dev,omitempty"`
-	Table   bool      `json:"table,omitempty"` // part of the exhaustively enumerated decision table
+	Kind      string    `json:"k"` // req advance setkeys dev clean
+	Method    int       `json:"method,omitempty"`
+	ReqR      int       `json:"req_r,omitempty"` // index into permPool
+	ReqW      int       `json:"req_w,omitempty"`
+	Cred      string    `json:"cred,omitempty"` // none bearer basic unknown short malformed cookie badcookie bridge
+	Key       int       `json:"key,omitempty"`
+	Short     int       `json:"short,omitempty"`
+	Cookie    int       `json:"cookie,omitempty"`
+	Auth      string    `json:"auth,omitempty"` // authenticator behaviour if consulted: token nil error denied
+	AuthR     int       `json:"auth_r,omitempty"`
+	AuthW     int       `json:"auth_w,omitempty"`
+	Origin    int       `json:"origin,omitempty"`
+	Host      int       `json:"host,omitempty"`
+	Panic     bool      `json:"panic,omitempty"`
+	PanicLate bool      `json:"panic_late,omitempty"` // the handler has already started its response when it panics
+	Via       int       `json:"via,omitempty"`        // 0 a custom http.Handler; 1-5 a registered Endpoint with ActionFunc, DataFunc, StructFunc, RecordFunc, HandlerFunc
+	Secs      int       `json:"secs,omitempty"`
+	Keys      []KeySpec `json:"keys,omitempty"`
+	Dev       bool      `json:"dev,omitempty"`
+	Table     bool      `json:"table,omitempty"` // part of the exhaustively enumerated decision table
 }
 
 // Plan is one request history.
@@ -298,15 +298,15 @@ type sessModel struct {
 }
 
 type state struct {
-	rc       *simkit.RunCtx
-	keys     map[string]*keyModel
-	sessions []*sessModel
-	dev      bool
-	authCalls int
+	rc            *simkit.RunCtx
+	keys          map[string]*keyModel
+	sessions      []*sessModel
+	dev           bool
+	authCalls     int
 	authBehaviour Step
-	requests int
-	reports []*modules.ModuleError
-	errCh   chan *modules.ModuleError
+	requests      int
+	reports       []*modules.ModuleError
+	errCh         chan *modules.ModuleError
 }
 
 func permVal(spec int) (int, bool) {
@@ -791,14 +791,13 @@ func (H) Shrink(prop string, plan any) []any {
 	return out
 }
 
-
 // ---- exhaustive part: the decision table (handler permission pair x method x credential state), partitioned over runs
 
 type credState struct {
-	cred          string
-	key, short    int
-	auth          string
-	authR, authW  int
+	cred         string
+	key, short   int
+	auth         string
+	authR, authW int
 }
 
 var tableCreds = func() []credState {
